@@ -29,12 +29,16 @@ const (
 // triage table entry: a compiler-unproven bounds check (or another panic-capable construct)
 // that was read and found safe, with the invariant that makes it so.
 type triageEntry struct {
-	Func   string `json:"func"`
-	Kind   string `json:"kind"`
-	Expr   string `json:"expr"`
-	Alt    string `json:"alt,omitempty"` // Expr with hoisted locals written back (filled by VERIF_C01_FILL_ALT)
-	Count  int    `json:"count"`
-	Reason string `json:"reason"`
+	Func  string `json:"func"`
+	Kind  string `json:"kind"`
+	Expr  string `json:"expr"`
+	Alt   string `json:"alt,omitempty"` // Expr with hoisted locals written back (filled by VERIF_C01_FILL_ALT)
+	Count int    `json:"count"`
+	// DataInvariant: the reason is an invariant of the data the expression reads (configuration,
+	// a constant-size value), not a guard in the function: further instances of the same
+	// expression in the same function are covered by the same reason
+	DataInvariant bool   `json:"data_invariant,omitempty"`
+	Reason        string `json:"reason"`
 }
 
 type triageTable struct {
@@ -150,7 +154,7 @@ func c01Roots(p *core.Prog) (roots []*ssa.Function, desc map[*ssa.Function]strin
 func c01(c *Ctx) {
 	p, r := c.P, c.R
 	r.Technique = "panic-site audit over the peer-reachable call graph: the Go compiler's own prove pass (-d=ssa/check_bce) lists every bounds check it cannot eliminate, each is mapped to its syntax node and function and must be covered by a hand-confirmed triage entry; plus type-assertion/explicit-panic inventory, definite-nil-receiver check, and a blocking-channel-operation rule for the synchronous part of talk handlers"
-	r.Explanation = "Decides, for shisui's own code reachable from a peer-input entry point (registered talk handlers, the processors of TALKRESP payloads, every ValidateContent and every ContentStorage Get/Put implementation, and everything they call through static calls, closures and module-internal interface dispatch): (R1) every index / slice / slice-to-array conversion whose bounds check the compiler's prove pass could not eliminate is listed in the triage table with the invariant that protects it - a new unproven site (e.g. because a length check in front of it was removed or weakened, which turns a compiler-proved site into a reported one) is a violation naming function and expression; (R3) every type assertion without comma-ok and every explicit panic / Must* call in that set is listed likewise; (R4) no method is called on, and no field read through, a pointer variable that is definitely nil (declared and never assigned); (R5) a talk handler performs no channel send or receive synchronously outside a select with a default or cancellation case; (R6) handler dispatch switches on message codes fall through to a nil reply / error for unknown codes; (R8) a pointer field that the code itself sets to nil to mean 'gone' is dereferenced on peer-driven code (handlers and the routing-table loop) only after a non-nil test of that field on every path; (R9) the result of a module function that returns nil on one path and an object on another is dereferenced, used as a method receiver or boxed into an interface on peer-driven code only after a nil test of that result, or the site is in the triage table with the reason why nil cannot arrive. Not decided: absence of panics as such (sites in the table are trusted to their written reason), panics inside dependencies (rlp, ztyp, zrnt, fastssz, pebble, utp-go, discv5), memory exhaustion, goroutine leaks, termination in general."
+	r.Explanation = "Decides, for shisui's own code reachable from a peer-input entry point (registered talk handlers, the processors of TALKRESP payloads, every ValidateContent and every ContentStorage Get/Put implementation, and everything they call through static calls, closures and module-internal interface dispatch): (R1) every index / slice / slice-to-array conversion whose bounds check the compiler's prove pass could not eliminate is listed in the triage table with the invariant that protects it - a new unproven site (e.g. because a length check in front of it was removed or weakened, which turns a compiler-proved site into a reported one) is a violation naming function and expression; (R3) every type assertion without comma-ok and every explicit panic / Must* call in that set is listed likewise; (R4) no method is called on, and no field read through, a pointer variable that is definitely nil (declared and never assigned); (R5) a talk handler performs no channel send or receive synchronously outside a select with a default or cancellation case; (R6) handler dispatch switches on message codes fall through to a nil reply / error for unknown codes; (R8) a pointer field that the code itself sets to nil to mean 'gone' is dereferenced on peer-driven code (handlers and the routing-table loop) only after a non-nil test of that field on every path; (R9) the result of a module function that returns nil on one path and an object on another is dereferenced, used as a method receiver or boxed into an interface on peer-driven code only after a nil test of that result, or the site is in the triage table with the reason why nil cannot arrive; (R10) a plain map kept in a struct field is written on talk-handler code (which discv5 runs concurrently) only with a mutex of the same struct held. Not decided: absence of panics as such (sites in the table are trusted to their written reason), panics inside dependencies (rlp, ztyp, zrnt, fastssz, pebble, utp-go, discv5), memory exhaustion, goroutine leaks, termination in general."
 	r.Assumptions = []string{"the Go compiler's prove pass is sound (a bounds check it removes cannot fail)", "triage reasons were confirmed by reading the code at the audited commit; the tables are keyed by function+expression, never by line"}
 	r.Floor("R1.bounds", 100)
 	r.Floor("R5.blocking-ops", 2)
@@ -262,7 +266,7 @@ func c01(c *Ctx) {
 			}
 		}
 		if ok {
-			if got[k] > e.Count {
+			if got[k] > e.Count && !e.DataInvariant {
 				r.Fail("R1.bounds", k, pos, fmt.Sprintf("%d unproven checks of this shape, only %d were triaged (%s): a further instance appeared", got[k], e.Count, e.Reason))
 			} else {
 				r.Pass("R1.bounds", k, pos, "triaged: "+e.Reason)
@@ -572,6 +576,7 @@ func c01other(c *Ctx, roots []*ssa.Function, reach map[*ssa.Function]bool, tab *
 	c01LockPairing(c, reach)
 	c01NilSentinel(c, reach)
 	c01NilReturn(c, reach, tab)
+	c01SharedMaps(c, roots, c01RootDesc(p))
 }
 
 // locallyGuarded re-derives, for a site the compiler could not prove, a guard the checker can
@@ -1315,4 +1320,9 @@ func totalLibraryCall(p *core.Prog, s core.BoundsSite) string {
 		return "check inside the inlined dependency function " + name + ", which sizes its own output and accepts any input length (dependencies are out of scope)"
 	}
 	return ""
+}
+
+func c01RootDesc(p *core.Prog) map[*ssa.Function]string {
+	_, d := c01Roots(p)
+	return d
 }
